@@ -71,18 +71,19 @@ static void prop(Tape &t, Ctx &c) {
         for (auto id : idsuites) if (t.chance(2, 3)) offered.push_back(id);
         if (cm & 4) for (auto id : T13_SUITES) if (t.chance(2, 3)) offered.push_back(id);
         if (offered.empty()) offered.push_back(idsuites[t.below(idsuites.size())]);
-        for (auto id : idsuites) if (t.chance(1, 4)) disabled.insert(id);
-        for (auto id : T13_SUITES) if (t.chance(1, 5)) disabled.insert(id);
+        // the server application applies a SEQUENCE of disable / re-enable calls; the model is the final state
+        std::vector<std::pair<uint16_t, bool>> ops; { std::vector<uint16_t> all = idsuites; all.insert(all.end(), T13_SUITES.begin(), T13_SUITES.end());
+            int nops = (int) t.below(9); for (int i = 0; i < nops; i++) { uint16_t id = all[t.below(all.size())]; bool off = disabled.count(id) ? t.chance(1, 3) : t.chance(4, 5); ops.push_back({ id, off }); if (off) disabled.insert(id); else disabled.erase(id); } }
         int cems = (int) t.below(3) - 1, sems = (int) t.below(2);       // client: -1 disabled, 0 default, 1 required; server: 0 default, 1 required
         bool use_default_sets = t.chance(1, 8);
-        if (use_default_sets) { cset.clear(); sset.clear(); cm = sm = 7; cems = 0; sems = 0; disabled.clear(); offered = idsuites; for (auto id : T13_SUITES) offered.push_back(id); }
-        std::string os, ds; for (auto id : offered) os += fmt("%04x,", id); for (auto id : disabled) ds += fmt("%04x,", id);
-        std::string desc = fmt("A: identity=%s client versions=[%s] server versions=[%s] offered=[%s] server-disabled=[%s] ems client=%d server=%d", ec ? "EC" : "RSA", setstr(cset).c_str(), setstr(sset).c_str(), os.c_str(), ds.c_str(), cems, sems);
+        if (use_default_sets) { cset.clear(); sset.clear(); cm = sm = 7; cems = 0; sems = 0; disabled.clear(); ops.clear(); offered = idsuites; for (auto id : T13_SUITES) offered.push_back(id); }
+        std::string os, ds; for (auto id : offered) os += fmt("%04x,", id); for (auto &op : ops) ds += fmt("%s%04x,", op.second ? "-" : "+", op.first);
+        std::string desc = fmt("A: identity=%s client versions=[%s] server versions=[%s] offered=[%s] server-enable/disable-ops=[%s] ems client=%d server=%d", ec ? "EC" : "RSA", setstr(cset).c_str(), setstr(sset).c_str(), os.c_str(), ds.c_str(), cems, sems);
         c.sample(desc); if (c.verbose) fprintf(stderr, "case: %s\n", desc.c_str());
         Pair p; Config cc, sc; cc.client = true; sc.client = false; cc.versions = cset; sc.versions = sset; cc.suites = offered; cc.auth = sc.auth = auth; cc.entropy_stream = 1; sc.entropy_stream = 2; cc.ems = cems; sc.ems = sems;
         int r1 = p.s.open(sc), r2 = r1 >= 0 ? p.c.open(cc) : -1;
         if (r1 < 0 || r2 < 0) { c.count("A:session-creation-refused"); return; }   // e.g. TLS 1.3 requested without any 1.3 suite
-        for (auto id : disabled) { p.s.sel(); matrixSslSetCipherSuiteEnabledStatus(p.s.ssl, id, PS_FALSE); }
+        for (auto &op : ops) { p.s.sel(); matrixSslSetCipherSuiteEnabledStatus(p.s.ssl, op.first, op.second ? PS_FALSE : PS_TRUE); }
         p.run(60);
         Outcome o = finish(p);
         c.count(o.c_done && o.s_done ? "A:completed" : (!o.c_done && !o.s_done) ? "A:failed-both" : "A:one-sided");
